@@ -41,7 +41,10 @@ ASSUMPTIONS = [
     'the stream is passed as an iterator (the signature says Iterator; a list is '
     'double-counted by the num_columns inference and is not generated)',
     'all columns of one input batch have equal length and every batch has the same '
-    'number of columns (otherwise the library raises ValueError by design)',
+    'number of columns; for input tuples whose columns differ in length (ragged '
+    'sub-check) the only demands are: no emitted batch has columns of unequal length or '
+    'a row mixing different input rows, and the stream does not finish normally (the '
+    'library raises ValueError by design)',
     'one container kind per column for the whole stream (list, tuple, 1-D int64 ndarray, '
     '2-D int64 ndarray); _concat takes the kind of the first buffered batch',
     'input batches of size 0 inside a stream are treated as valid input (nothing in the '
@@ -59,7 +62,7 @@ REQUIRED = ['direct_checks', 'concat_checks', 'size_checks', 'alignment_checks',
             'pad_checks', 'infer_checks', 'given_columns_checks',
             'empty_stream_checks', 'zero_size_batch_checks', 'passthrough_checks',
             'apply_checks', 'fn_batch_checks', 'select_checks', 'batch_checks', 'rowchange_checks',
-            'input_unchanged_checks']
+            'input_unchanged_checks', 'ragged_checks', 'ragged_rejected']
 EXHAUSTIVE = {'quick': True, 'thorough': True}
 CHUNK_TIMEOUT_S = {'quick': 240, 'thorough': 3000}
 
@@ -635,6 +638,119 @@ def _run_pipe_random(ctx, cnt, spec):
 
 
 # ---------------------------------------------------------------------------
+# Ragged input (columns of one input tuple with unequal lengths)
+# ---------------------------------------------------------------------------
+
+
+def _mk_ragged(lens, kind):
+  """lens[j][c] = length of column c of input tuple j; ids = M*c + row position."""
+  out, pos = [], 0
+  for tl in lens:
+    out.append(tuple(_mk_col(_col_kind(kind, c), c, pos, l) for c, l in enumerate(tl)))
+    pos += max(tl) if tl else 0
+  return out
+
+
+def check_ragged(ctx, cnt, case):
+  """Rows of one input tuple cannot line up when its columns differ in length.
+
+  Whatever the library then does, it must not emit a batch whose row i mixes
+  different input rows, and it cannot finish normally (all rows conserved in
+  equal-length columns is impossible): by design it raises ValueError.
+  """
+  from ml_metrics._src.utils import iter_utils
+  lens, kind, target = case['lens'], case['kind'], case['target']
+  cols = len(lens[0])
+  ctx.case(('ragged', tuple(map(tuple, lens)), target, kind, case['infer']), True)
+  cnt.add('ragged_checks')
+  kwargs = {} if case['infer'] else {'num_columns': cols}
+  if case.get('pad') is not None:
+    kwargs['pad'] = case['pad']
+  out, err = [], None
+  try:
+    for b in iter_utils.rebatched_args(iter(_mk_ragged(lens, kind)), target, **kwargs):
+      out.append(b)
+      if len(out) > 10000:
+        break
+  except Exception as e:  # pylint: disable=broad-exception-caught
+    err = e
+  pad = case.get('pad')
+  for j, b in enumerate(out):
+    try:
+      colsl = [_tolist(c) for c in b]
+    except Exception as e:  # pylint: disable=broad-exception-caught
+      ctx.violation('bad_output_container', case, {'error': repr(e)[:200]})
+      return
+    ls = [len(c) for c in colsl]
+    if len(set(ls)) > 1:
+      ctx.violation('ragged_column_lengths_differ', case, {'batch': j, 'lengths': ls},
+                    mechanism='ragged-input-emitted-misaligned')
+      return
+    for i in range(ls[0] if ls else 0):
+      gs = {colsl[c][i] - M * c for c in range(len(colsl))
+            if not (pad is not None and colsl[c][i] == pad)}
+      if len(gs) > 1:
+        ctx.violation('ragged_rows_misaligned', case,
+                      {'batch': j, 'row': i, 'cells': [colsl[c][i] for c in range(len(colsl))],
+                       'emitted': [[_tolist(c) for c in bb] for bb in out][:6]},
+                      mechanism='ragged-input-emitted-misaligned')
+        return
+  if err is None:
+    ctx.violation('ragged_input_accepted', case,
+                  {'emitted': [[_tolist(c) for c in bb] for bb in out][:6]},
+                  mechanism='ragged-input-accepted')
+    return
+  cnt.add('ragged_rejected')
+  ctx.observe('ragged_error', type(err).__name__)
+
+
+def _run_ragged_sweep(ctx, cnt, spec):
+  """All pairs / triples of 2-column tuples over lengths 0..lmax with a ragged one."""
+  lmax, ntup = spec['lmax'], spec['ntup']
+  tl = list(itertools.product(range(lmax + 1), repeat=2))
+  for lens in itertools.product(tl, repeat=ntup):
+    if all(a == b for a, b in lens):
+      continue
+    for target in spec['targets']:
+      r = sum(map(sum, lens)) + target
+      kind = KINDS[r % 3]
+      check_ragged(ctx, cnt, {'api': 'ragged', 'lens': [list(x) for x in lens],
+                              'kind': kind, 'target': target, 'infer': r % 2 == 0,
+                              'pad': None if r % 4 < 2 else -1})
+
+
+def _run_ragged_random(ctx, cnt, spec):
+  rng = random.Random(spec['rseed'] * 7368787 + spec['index'] * 611953 + 3)
+  for _ in range(spec['count']):
+    cols = rng.choice([2, 2, 3, 4])
+    n = rng.randint(1, 8)
+    smax = rng.choice([2, 4, 9])
+    lens = [[s] * cols for s in (rng.randint(0, smax) for _ in range(n))]
+    # One ragged tuple, optionally compensated by a later (or earlier) one so the
+    # column totals agree again.
+    j, c = rng.randrange(n), rng.randrange(cols)
+    d = rng.choice([-2, -1, 1, 2])
+    if lens[j][c] + d < 0:
+      d = -d
+    lens[j][c] += d
+    if n > 1 and rng.random() < 0.6:
+      j2 = rng.choice([x for x in range(n) if x != j])
+      if lens[j2][c] - d >= 0:
+        lens[j2][c] -= d
+      else:
+        for c2 in range(cols):
+          if c2 != c:
+            lens[j2][c2] += d
+    total = sum(max(t) for t in lens)
+    target = rng.choice([rng.randint(1, 8), max(1, total), max(1, total + 1),
+                         rng.randint(1, 30)])
+    check_ragged(ctx, cnt, {'api': 'ragged', 'lens': lens,
+                            'kind': rng.choice(['list', 'tuple', 'array', 'mixed']),
+                            'target': target, 'infer': rng.random() < 0.5,
+                            'pad': rng.choice([None, None, -1])})
+
+
+# ---------------------------------------------------------------------------
 # Plan / entry points
 # ---------------------------------------------------------------------------
 
@@ -666,8 +782,17 @@ def plan(tier, seed):
       specs.append({'mode': 'pipe', 'prefix': [p], 'smax': smax, 'maxlen': maxlen})
   specs.append({'mode': 'batch', 'rows_max': 40 if thorough else 16,
                 'n_max': 12 if thorough else 8})
+  specs.append({'mode': 'ragged_sweep', 'lmax': 3, 'ntup': 2,
+                'targets': list(range(1, 9))})
+  specs.append({'mode': 'ragged_sweep', 'lmax': 2, 'ntup': 3,
+                'targets': list(range(1, 8))})
+  if thorough:
+    specs.append({'mode': 'ragged_sweep', 'lmax': 4, 'ntup': 3,
+                  'targets': list(range(1, 14))})
   nrand = 48 if thorough else 4
   for i in range(nrand):
+    specs.append({'mode': 'ragged_random', 'rseed': seed, 'index': i,
+                  'count': 20000 if thorough else 1500})
     specs.append({'mode': 'direct_random', 'rseed': seed, 'index': i,
                   'count': 20000 if thorough else 1200})
     specs.append({'mode': 'pipe_random', 'rseed': seed, 'index': i,
@@ -699,6 +824,10 @@ def run_chunk(ctx, spec):
       _run_direct_random(ctx, cnt, spec)
     elif mode == 'pipe_random':
       _run_pipe_random(ctx, cnt, spec)
+    elif mode == 'ragged_sweep':
+      _run_ragged_sweep(ctx, cnt, spec)
+    elif mode == 'ragged_random':
+      _run_ragged_random(ctx, cnt, spec)
     else:
       raise ValueError(mode)
   finally:
@@ -717,6 +846,8 @@ def run_case(ctx, case):
       check_batch(ctx, cnt, case)
     elif api == 'rowchange':
       check_rowchange(ctx, cnt, case)
+    elif api == 'ragged':
+      check_ragged(ctx, cnt, case)
     else:
       check_pipeline(ctx, cnt, case)
   finally:
